@@ -13,7 +13,7 @@ Tie:      API level vs numpy.ma (mask exactly, data where unmasked, fill_value w
           NumPy source array must be unchanged (data, mask, fill_value) after computing.
           Extension (harness/props/_c33x.py, Props/C33xRed.lean): sections mapartials (every chunk-level partial, combine task
           and aggregate of the REAL graph of a masked reduction vs the pair model, `nomask` status of the blocks included) and
-          maarr (getmaskarray / getdata / filled per block, `nomask` expanded).
+          maarr (getmaskarray / getdata / filled per block, `nomask` expanded), maavg (average with weights).
 """
 from __future__ import annotations
 
@@ -54,7 +54,10 @@ LEVEL_TEXT = (
     "array has a mask and every element is masked), maChunk_toOpt_eq_mfold (the Option model is this one with the payload "
     "forgotten), ma_min_max_eq (= List.min?/max? of the unmasked values), ma_mean_eq_numpy_ma ((total, n): n = #unmasked, both "
     "masked iff everything is), ma_var_eq / ma_var_all_masked (moment tree over the unmasked values = C22.var_eq_numpy), "
-    "getmaskarray_nomask_den (nomask expanded per block), getdata_den, filled_arr_den. REFUTED (finding, not repaired): for blocks "
+    "getmaskarray_nomask_den (nomask expanded per block), getdata_den, filled_arr_den, ma_red_nd_eq (the pair-level tree over SEVERAL "
+    "axes at once, commutative monoid, every per-axis split_every), ma_average_eq_partial (da.ma.average(weights=w): numerator = "
+    "weighted sum of the unmasked values, denominator = total weight of the unmasked positions; the numerator's blocks come from a "
+    "per-block ufunc call and are shrunk, hence partial). REFUTED (finding, not repaired): for blocks "
     "that went through a per-block numpy.ma masking function (masked_where/greater/…: masks shrunk to nomask block by block) "
     "ma_red_shrunk_empty_block_refuted — a zero-length block becomes nomask, its partial is the unmasked unit, and sum/prod/any/all/"
     "mean/var of a completely masked array return 0/1/False/True/nan where numpy.ma returns masked; "
